@@ -29,6 +29,7 @@ type Oracle struct {
 	Violations  []Violation            `json:"violations"`
 	Extra       map[string]interface{} `json:"oracle"`
 	seen        map[[20]byte]bool
+	partial     string // where violations are flushed as they are found (survives a kill of the process)
 }
 
 func NewOracle() *Oracle {
@@ -61,6 +62,13 @@ func (o *Oracle) Sample(s interface{}) {
 func (o *Oracle) Violate(key, what string, replay interface{}) {
 	if len(o.Violations) < 50 {
 		o.Violations = append(o.Violations, Violation{key, what, replay})
+	}
+	// the first findings are written out at once: an implementation that then exhausts memory
+	// or never returns gets the process killed before oracle.json is written
+	if o.partial != "" && len(o.Violations) <= 5 {
+		if b, err := json.MarshalIndent(map[string]interface{}{"violations": o.Violations}, "", " "); err == nil {
+			os.WriteFile(o.partial, b, 0o644)
+		}
 	}
 }
 
@@ -111,6 +119,17 @@ func (c *Ctx) Impl() *bufio.Writer {
 	}
 	return c.impl
 }
+
+// InFlight records the input the implementation is about to run on; Landed removes the record.
+// If the process dies in between (out of memory, fatal runtime error, kill after a hang) the
+// record names the input: tools/check.py reports it as the failing input.
+func (c *Ctx) InFlight(replay interface{}) {
+	os.MkdirAll(c.Out, 0o755)
+	if b, err := json.Marshal(map[string]interface{}{"replay": replay}); err == nil {
+		os.WriteFile(filepath.Join(c.Out, "inflight.json"), b, 0o644)
+	}
+}
+func (c *Ctx) Landed() { os.Remove(filepath.Join(c.Out, "inflight.json")) }
 
 func (c *Ctx) Close() {
 	if c.cases != nil {
@@ -164,6 +183,11 @@ func runProp(args []string) bool {
 		os.Exit(2)
 	}
 	c.R = NewRNG(c.Seed)
+	os.MkdirAll(c.Out, 0o755)
+	c.Or.partial = filepath.Join(c.Out, "oracle.partial.json")
+	os.Remove(c.Or.partial)
+	os.Remove(filepath.Join(c.Out, "oracle.json"))
+	c.Landed()
 	f(c)
 	c.Close()
 	fmt.Printf("%s: evaluations=%d distinct=%d violations=%d\n", c.PID, c.Or.Evaluations, c.Or.Distinct, len(c.Or.Violations))
